@@ -58,6 +58,35 @@ CHECKS = {
          "announced) for all announced lengths 0..3; replay: the real stream of the source is byte-compared with the real stream "
          "of the vector, deserialized as the vector type in both modes, and lying iterators are replayed.",
          "6 C16"),
+ "C10": ("model checking + conformance replay (mutation of real streams)",
+         "MC_Reader: after the serializer machine, every single-bit flip of the 29 fixed header bytes, the byte-reversed cookie "
+         "and boundary minor versions are applied and both reader machines run; TLC checks HeaderRule (the specific error with "
+         "the offending value; lower minor accepted with the same value) and NeverPanicOnHeader; each terminal state is replayed "
+         "by applying the same mutation to the real stream and calling both real deserializers; all minor versions 0..65535 are "
+         "replayed on the real code in thorough.",
+         "6 C10"),
+ "C11": ("model checking + conformance replay (all cut points)",
+         "MC_Reader with every cut k in [0, len): TLC checks TruncNeverValue (full copy: ReadError; ε-copy: error or bounds panic, "
+         "never ok) and InBounds; every (type, value, k) is replayed on the real prefix: deserialize_full, and deserialize_eps "
+         "at base 0 and on an exactly-sized copy that ends at a PROT_NONE guard page (a read past the prefix kills the process "
+         "and is reported).",
+         "6 C11"),
+ "C12": ("model checking + conformance replay (all placements)",
+         "MC_Reader with every base residue 0..127: TLC checks PlaceRule (ok iff every block row of the serializer machine lands "
+         "on a multiple of its unit, else AlignmentError; references aligned) and ByteAlignedAnywhere; every (type, value, "
+         "residue) is replayed by copying the real stream to that residue of a 128-aligned buffer.",
+         "6 C12"),
+ "C14": ("model checking + conformance replay (reader schedules)",
+         "MC_Reader with a reader that may fail any read_exact: TLC checks ReaderFailRule (ReadError, never a value or panic); "
+         "the real full-copy deserializer is driven with std::io::Read readers that fragment (1-byte, primes, seeded random, "
+         "interleaved Interrupted) and that fail at every byte position of every stream of the universe.",
+         "6 C14"),
+ "C15": ("model checking + conformance replay (tag mutation)",
+         "The serializer machine marks every tag site (Option/Bound/ControlFlow byte tags, derived-enum word tags) with its "
+         "number of valid values; MC_Reader overwrites each site with foreign values (byte tags: a class sample in quick, all "
+         "256 in thorough; word tags: n, n+1, 255, 256, 2^32, 2^63, 2^64-1) and TLC checks TagRule (InvalidTag carrying exactly "
+         "that value in both modes); each is replayed on the real stream. The round trip of every variant is C01/C02's replay.",
+         "6 C15"),
 }
 
 
